@@ -221,10 +221,10 @@ func (s *Svc) Bind(owner, provider sdk.AccAddress, svc string, deposit sdk.Coins
 		Pricing: pricing, QoS: qos, Options: "{}", Owner: owner.String()})
 }
 
-// UpdateBinding changes deposit (added), pricing ("" = keep) and QoS (0 = keep).
-func (s *Svc) UpdateBinding(owner, provider sdk.AccAddress, svc string, deposit sdk.Coins, pricing string, qos uint64) chain.Result {
+// UpdateBinding changes deposit (added), pricing ("" = keep), QoS (0 = keep) and options ("" = keep).
+func (s *Svc) UpdateBinding(owner, provider sdk.AccAddress, svc string, deposit sdk.Coins, pricing string, qos uint64, options string) chain.Result {
 	return s.C.Deliver(&servicetypes.MsgUpdateServiceBinding{ServiceName: svc, Provider: provider.String(), Deposit: deposit,
-		Pricing: pricing, QoS: qos, Owner: owner.String()})
+		Pricing: pricing, QoS: qos, Options: options, Owner: owner.String()})
 }
 
 // Disable a binding.
